@@ -149,6 +149,10 @@ def corpus(T):
     setattr(named.children[1], "_luqum_name", "b")
     return [
         W("a"), U(), U(W("a")), U(W("a"), W("b")), named,
+        # placeholders as operands (fresh objects and the module-level NONE_ITEM): they get a separator like any
+        # other operand, in the COPY
+        U(W("a"), T.NoneItem()), U(T.NoneItem(), T.NoneItem(), W("b")), A(W("a"), U(W("b"), T.NoneItem())),
+        U(W("a"), T.NONE_ITEM), G(U(T.NONE_ITEM, W("b"), T.NONE_ITEM)),
         # the dict is created at the topmost And/Or/Unknown of each branch: siblings under a group root
         # do not see each other, descendants of one operation do
         G(U(W("a"), W("b"))),
@@ -373,6 +377,10 @@ def correspond(model_ok, res):
                 after = lib.g_item(tree)
                 if after != before:
                     res.failures.append((dict(payload, why="the input tree was modified"), None))
+                if (T.NONE_ITEM.head, T.NONE_ITEM.tail, T.NONE_ITEM.pos, T.NONE_ITEM.size) != ("", "", None, None):
+                    res.failures.append((dict(payload, why="the module-level placeholder NONE_ITEM was modified: "
+                                              "head=%r tail=%r" % (T.NONE_ITEM.head, T.NONE_ITEM.tail)), None))
+                    T.NONE_ITEM.head = T.NONE_ITEM.tail = ""      # repair so that later cases are judged on their own
                 why = oracle(T, tree, out, tgcls, ah, flags)
                 if why is None:
                     why, checked = same_meaning(T, tree, out, tgcls)
